@@ -106,7 +106,7 @@ def synth_single_mobility(therm, x, T, unsortIndices, hashTable=None):
                 mob[r, :] = -1
             else:
                 for e in range(ne):
-                    mob[r, e] = sp['M0'] * (10 ** (sp['spread'] * pi)) * (1 + 0.3 * e) * math.exp(-sp['Q'] / R * (1 / T - 1 / 1000.0)) * xfull[e]
+                    mob[r, e] = sp['M0'] * (10 ** (sp['spread'] * pi)) * (1 + 0.3 * e) * math.exp(-sp['Q'] / R * (1 / T - 1 / 1000.0)) * max(xfull[e], 1e-12)
         order = list(range(len(phases)))
         if sp.get('reverse_stable_order') and len(order) > 1:
             order = order[::-1]
